@@ -1,10 +1,13 @@
 (* C15 — the whole data directory under one process: the fractions in creation order, each in its
    single-fraction state (Model.st), and the goroutines that work on them at the same time. One
-   retention pass pushes out the k oldest listed fractions and starts ONE GOROUTINE PER OUTSIDER
-   (fracmanager.go shrinkSizes: `for _, outsider := range outsiders { go outsider.Suicide() }`); the
-   scheduler picks which goroutine performs its next file operation; the process may die after ANY
-   operation of ANY of them; a new process runs the loader (its removals can be interrupted too).
-   No proofs here.
+   retention pass pushes out the k oldest listed fractions and starts ONE goroutine that deletes them
+   ONE AFTER ANOTHER in list order (fracmanager.go shrinkSizes after fix 14be38b:
+   `go func() { for _, outsider := range outsiders { outsider.Suicide() } }()`); passes of later
+   maintenance steps start further such goroutines; background seals and Release run in their own
+   goroutines; the scheduler picks which goroutine performs its next file operation; the process may die
+   after ANY operation of ANY of them; a new process runs the loader (its removals can be interrupted
+   too). seq = false gives the code before 14be38b (`for ... { go outsider.Suicide() }`: one goroutine
+   per outsider), kept as the _v0 definitions. No proofs here.
 
    Anchors: fracmanager/fracmanager.go (shrinkSizes, shiftFirstFrac, maintenance, rotate, seal, Load),
    fracmanager/proxy_frac.go (Suicide, Seal), frac/sealed.go (Suicide), frac/active.go (Suicide, Release),
@@ -100,16 +103,19 @@ Fixpoint restart_pending (sorted : bool) (d : list st) : list st :=
 (* ------------------------------------------------------------------ events of the directory *)
 
 Inductive dev :=
-| DPass (k : nat)            (* retention pass pushing out the k oldest listed fractions *)
-| DStep (i : nat)            (* goroutine of fraction i (position in creation order): next operation *)
-| DStepR (i : nat)           (* second thread of fraction i (deletion overlapping Release) *)
+| DPass (k : nat)            (* retention pass pushing out the k oldest listed fractions; starts the pass goroutine *)
+| DJob (j : nat)             (* pass goroutine j: next operation of the outsider it is deleting, or (when that
+                                Suicide() has returned) it turns to its next outsider *)
+| DStep (i : nat)            (* a goroutine of fraction i itself (seal, Release, loader; before 14be38b also its deletion) *)
+| DStepR (i : nat)           (* second thread of fraction i (deletion overlapping Release; before 14be38b) *)
 | DBulk (i : nat)            (* a bulk reaches the active fraction i *)
 | DSeal (i : nat)            (* rotate has happened; the background seal of fraction i starts *)
 | DRotate                    (* a new active fraction is appended: NewActive *)
 | DCrash                     (* the process dies *)
 | DRestart.                  (* a new process starts: loader *)
 
-Record dstate := mkd { d_up : bool; d_fr : list st }.
+(* d_jobs: per pass goroutine the outsiders (positions) it still has to delete, the head is in work *)
+Record dstate := mkd { d_up : bool; d_fr : list st; d_jobs : list (list nat) }.
 
 Definition bulk1 (s : st) : st :=
   match pr s with PIdle MActive => mkstate (files s) true (doomed s) (PIdle MActive) | _ => s end.
@@ -119,25 +125,79 @@ Definition seal1 (sorted : bool) (s : st) : st :=
   | _ => s
   end.
 
-Definition dstep (sorted : bool) (d : dstate) (e : dev) : dstate :=
+(* positions of the fractions evict_first pushes out *)
+Fixpoint evict_pos (k i : nat) (d : list st) : list nat :=
+  match d with
+  | [] => []
+  | s :: r =>
+      match listed s, k with
+      | true, S k' => i :: evict_pos k' (S i) r
+      | _, _ => evict_pos k (S i) r
+      end
+  end.
+
+Definition in_jobs (i : nat) (jobs : list (list nat)) : bool := existsb (existsb (Nat.eqb i)) jobs.
+
+(* the operations of a fraction's deletion belong to the pass goroutine *)
+Definition is_deleting (s : st) : bool := match pr s with PRun _ MGone => true | _ => false end.
+
+(* Suicide() of the outsider has returned (Active.Release of a freshly sealed one may still be running) *)
+Definition suicide_returned (s : st) : bool :=
+  match pr s with PIdle MGone | PPar _ [] MGone => true | _ => false end.
+
+(* the pass goroutine works on the outsider: file operations of a plain deletion, or the deletion side of a
+   fraction that was pushed out while it was being sealed / released (waits while the seal is running) *)
+Definition job_step1 (sorted : bool) (s : st) : st :=
+  match pr s with
+  | PRun _ _ => step1 sorted false s
+  | PPar _ _ _ => step1 sorted true s
+  | _ => s
+  end.
+
+Fixpoint set_nth {A} (j : nat) (x : A) (l : list A) : list A :=
+  match l, j with
+  | [], _ => []
+  | _ :: r, 0 => x :: r
+  | y :: r, S j' => y :: set_nth j' x r
+  end.
+
+Definition dstep (seq sorted : bool) (d : dstate) (e : dev) : dstate :=
   if d_up d then
     match e with
-    | DPass k => mkd true (evict_first k (d_fr d))
-    | DStep i => mkd true (at_pos i (step1 sorted false) (d_fr d))
-    | DStepR i => mkd true (at_pos i (step1 sorted true) (d_fr d))
-    | DBulk i => mkd true (at_pos i bulk1 (d_fr d))
-    | DSeal i => mkd true (at_pos i (seal1 sorted) (d_fr d))
-    | DRotate => mkd true (d_fr d ++ [setp init_st (PRun new_active_prog MActive)])
-    | DCrash => mkd false (map crash1 (d_fr d))
+    | DPass k => mkd true (evict_first k (d_fr d)) (d_jobs d ++ [evict_pos k 0 (d_fr d)])
+    | DJob j =>
+        match nth j (d_jobs d) [] with
+        | [] => d
+        | h :: r =>
+            match nth_error (d_fr d) h with
+            | Some s => if suicide_returned s then mkd true (d_fr d) (set_nth j r (d_jobs d))
+                        else mkd true (at_pos h (job_step1 sorted) (d_fr d)) (d_jobs d)
+            | None => mkd true (d_fr d) (set_nth j r (d_jobs d))
+            end
+        end
+    | DStep i =>
+        match nth_error (d_fr d) i with
+        | Some s => if seq && in_jobs i (d_jobs d) && is_deleting s then d
+                    else mkd true (at_pos i (step1 sorted false) (d_fr d)) (d_jobs d)
+        | None => d
+        end
+    | DStepR i =>
+        if seq && in_jobs i (d_jobs d) then d else mkd true (at_pos i (step1 sorted true) (d_fr d)) (d_jobs d)
+    | DBulk i => mkd true (at_pos i bulk1 (d_fr d)) (d_jobs d)
+    | DSeal i => mkd true (at_pos i (seal1 sorted) (d_fr d)) (d_jobs d)
+    | DRotate => mkd true (d_fr d ++ [setp init_st (PRun new_active_prog MActive)]) (d_jobs d)
+    | DCrash => mkd false (map crash1 (d_fr d)) []
     | DRestart => d
     end
   else
     match e with
-    | DRestart => mkd true (restart_pending sorted (d_fr d))
+    | DRestart => mkd true (restart_pending sorted (d_fr d)) []
     | _ => d
     end.
 
-Definition drun (sorted : bool) (evs : list dev) (d : dstate) : dstate := fold_left (dstep sorted) evs d.
+(* the code as it is (one deleting goroutine per pass) and as it was (one per outsider) *)
+Definition drun (sorted : bool) (evs : list dev) (d : dstate) : dstate := fold_left (dstep true sorted) evs d.
+Definition drun_v0 (sorted : bool) (evs : list dev) (d : dstate) : dstate := fold_left (dstep false sorted) evs d.
 
 (* ------------------------------------------------------------------ complete restart *)
 
@@ -186,9 +246,13 @@ Definition clean (sorted : bool) (s : st) : bool :=
 Definition clean_sealed (sorted : bool) : st := mkstate (sealed_files sorted) true false (PIdle MSealed).
 Definition clean_active : st := mkstate (fs_of [KDocs; KMeta]) true false (PIdle MActive).
 
-(* one interrupted pass: k outsiders, the scheduler's choices, crash, complete restart *)
-Definition after_crashed_pass (sorted : bool) (k : nat) (sched : list nat) (d0 : list st) : list st :=
-  restart_all sorted (map crash1 (d_fr (drun sorted (DPass k :: map DStep sched) (mkd true d0)))).
+(* one interrupted pass: k outsiders, the scheduler's choices (any events that let goroutines perform
+   operations), crash, complete restart *)
+Definition step_only (e : dev) : bool := match e with DJob _ | DStep _ | DStepR _ => true | _ => false end.
+Definition after_crashed_pass (sorted : bool) (k : nat) (sched : list dev) (d0 : list st) : list st :=
+  restart_all sorted (map crash1 (d_fr (drun sorted (DPass k :: filter step_only sched) (mkd true d0 [])))).
+Definition after_crashed_pass_v0 (sorted : bool) (k : nat) (sched : list nat) (d0 : list st) : list st :=
+  restart_all sorted (map crash1 (d_fr (drun_v0 sorted (DPass k :: map DStep sched) (mkd true d0 [])))).
 
 (* the following pass, run to its end *)
 Definition after_next_pass (sorted : bool) (k' : nat) (d1 : list st) : list st :=
@@ -196,6 +260,12 @@ Definition after_next_pass (sorted : bool) (k' : nat) (d1 : list st) : list st :
 
 Fixpoint count_true (l : list bool) : nat :=
   match l with [] => 0 | true :: r => S (count_true r) | false :: r => count_true r end.
+
+(* the states a deletion started on a clean fraction passes through *)
+Fixpoint nsteps (sorted : bool) (n : nat) (s : st) : st :=
+  match n with 0 => s | S n' => nsteps sorted n' (step1 sorted false s) end.
+Definition prog_states (sorted : bool) : list st :=
+  flat_map (fun c => map (fun n => nsteps sorted n (evict1 c)) (seq 0 10)) [clean_sealed sorted; clean_active].
 
 (* sizes as the manager sees them: only fractions it lists count *)
 Fixpoint live_sizes (d : list st) (sizes : list N) : list N :=
